@@ -57,14 +57,14 @@ def rho_from_counts(counts_by_setting: dict, n: int):
     for p in product("IXYZ", repeat=n):
         setting = "".join("Z" if g == "I" else g for g in p)
         counts = counts_by_setting[setting]
-        tot = sum(counts.values())
+        tot = sum(float(v) for v in counts.values())      # (counts may be fixed-width numpy integers)
         ev = 0.0
         for bits, cnt in counts.items():
             sign = 1
             for q, g in enumerate(p):
                 if g != "I" and bits[q] == 1:
                     sign = -sign
-            ev += sign * cnt
+            ev += sign * float(cnt)
         ev /= tot
         rho += ev * kron_all([paulis[g] for g in p]) / 2 ** n
     return rho
